@@ -9,6 +9,7 @@ import (
 	"net/url"
 	"runtime/debug"
 	"strings"
+	"sync"
 	"testing"
 
 	"google.golang.org/grpc/status"
@@ -30,6 +31,9 @@ type fuzzReq struct {
 
 type fuzzIn struct {
 	Reqs []fuzzReq `json:"reqs"`
+	// Conc > 0: the requests (read requests and requests that were rejected) are first answered one after the other, then by
+	// Conc workers at once, each walking the list from another position; every reply must be the reply given alone
+	Conc int `json:"conc"`
 }
 
 type fuzzOut struct {
@@ -42,6 +46,7 @@ type fuzzOut struct {
 	Failed   bool   `json:"failed"`
 	Changed  bool   `json:"state_changed"`
 	Desc     string `json:"desc"`
+	Reply    string `json:"-"` // body of an error reply / message of a gRPC error (compared between alone and concurrent runs)
 }
 
 var longStr = strings.Repeat("Z", 20000)
@@ -249,14 +254,20 @@ func (e *storeEnv) fuzzOne(r fuzzReq) (o fuzzOut) {
 		if body != nil && len(body) < 300 {
 			o.Desc += " body=" + string(body)
 		}
-		code, _ := e.do("A", h, method, target, body)
+		code, rb := e.do("A", h, method, target, body)
 		o.Status, o.Failed = code, code >= 400
+		if code >= 400 && len(rb) < 2000 {
+			o.Reply = string(rb)
+		}
 	}
 	// (grpcWire: a reply that cannot be put on the wire is what the client sees as codes.Internal)
 	grpcDone := func(desc string, err error) {
 		o.Kind = "grpc"
 		o.Desc = desc
 		o.Code, o.Failed = status.Code(err).String(), err != nil
+		if err != nil && len(err.Error()) < 2000 {
+			o.Reply = err.Error()
+		}
 	}
 	m := map[string]any{}
 	q := url.Values{}
@@ -528,6 +539,68 @@ func famFuzz(t *testing.T) {
 		seed = append(seed, &ketoapi.RelationTuple{Namespace: "n1", Object: "o1", Relation: "r1", SubjectID: ptr(fmt.Sprintf("member-%d", i))})
 	}
 	e.setInitial(seed)
+	if in.Conc > 0 {
+		var mine []fuzzReq
+		for _, r := range in.Reqs {
+			if r.I%sn == si {
+				mine = append(mine, r)
+			}
+		}
+		key := func(o fuzzOut) string {
+			return fmt.Sprintf("%s %d %s failed=%v panicked=%v", o.Kind, o.Status, o.Code, o.Failed, o.Panicked)
+		}
+		alone := make([]string, len(mine))
+		for i, r := range mine {
+			alone[i] = key(e.fuzzOne(r))
+		}
+		// the text of an error reply is compared too, where it is the same in two runs alone
+		for i, r := range mine {
+			a, b := e.fuzzOne(r), e.fuzzOne(r)
+			if key(a) == alone[i] && a.Reply == b.Reply {
+				alone[i] += " " + a.Reply
+			} else {
+				alone[i] += " *"
+			}
+		}
+		withReply := func(i int, o fuzzOut) string {
+			if strings.HasSuffix(alone[i], " *") {
+				return key(o) + " *"
+			}
+			return key(o) + " " + o.Reply
+		}
+		out.write(map[string]any{"conc_start": len(mine)})
+		out.flush()
+		var (
+			mu    sync.Mutex
+			diffs []map[string]any
+			wg    sync.WaitGroup
+			n     int
+		)
+		for w := 0; w < in.Conc; w++ {
+			wg.Add(1)
+			go func(w int) {
+				defer wg.Done()
+				// first pass: all workers walk the list in step (requests of one kind meet each other); second pass: from
+				// positions spread over the list (requests of different kinds meet)
+				for k := 0; k < 2*len(mine); k++ {
+					i := k % len(mine)
+					if k >= len(mine) {
+						i = (k + w*len(mine)/in.Conc) % len(mine)
+					}
+					got := withReply(i, e.fuzzOne(mine[i]))
+					mu.Lock()
+					n++
+					if got != alone[i] && len(diffs) < 20 {
+						diffs = append(diffs, map[string]any{"i": mine[i].I, "alone": alone[i], "concurrent": got})
+					}
+					mu.Unlock()
+				}
+			}(w)
+		}
+		wg.Wait()
+		out.write(map[string]any{"conc_done": n, "diffs": diffs})
+		return
+	}
 	for _, r := range in.Reqs {
 		if r.I%sn != si {
 			continue
